@@ -115,3 +115,21 @@ CASES += [
          "            # all components are kept (not only the last one)\n            self.params.append(prms)\n",
          "            converted = self.params\n            converted.append(prms)\n", 1)]},
 ]
+
+CFM = "quantarhei/qm/corfunctions/cfmatrix.py"
+_MEMO_OLD = "        temp = self._check_temperature_consistency()\n        return temp\n"
+_MEMO_NEW = ("        if getattr(self, \"_temp_known\", None) is None:\n"
+             "            self._temp_known = self._check_temperature_consistency()\n"
+             "        return self._temp_known\n")
+CASES += [
+    {"name": "common temperature of the matrix kept after the first query", "kind": "mutant", "rule": "C09-G", "edits": [
+        (CFM, _MEMO_OLD, _MEMO_NEW, 1)]},
+    {"name": "common temperature kept, reset by set_correlation_function only (storage re-initialisation forgotten)", "kind": "mutant", "rule": "C09-G", "edits": [
+        (CFM, _MEMO_OLD, _MEMO_NEW, 1),
+        (CFM, "            self.cfuncs[iof]  = fce\n", "            self.cfuncs[iof]  = fce\n            self._temp_known = None\n", 1)]},
+    {"name": "common temperature kept and reset by every writer of the stored functions", "kind": "twin", "edits": [
+        (CFM, _MEMO_OLD, _MEMO_NEW, 1),
+        (CFM, "            self.cfuncs[iof]  = fce\n", "            self.cfuncs[iof]  = fce\n            self._temp_known = None\n", 1),
+        (CFM, "        self.cfuncs = [None]*(nof+1)\n", "        self.cfuncs = [None]*(nof+1)\n        self._temp_known = None\n", 1),
+        (CFM, "            self.cfuncs[i] = save_cfunc[i]\n", "            self.cfuncs[i] = save_cfunc[i]\n            self._temp_known = None\n", 1)]},
+]
